@@ -82,4 +82,302 @@ theorem above_eq_spec (num : Nat) (ivl : Int) (hist : List Int) (ts : Int)
         · intro hw; exact ⟨t, hg, hw⟩
       by_cases hw : ts - t ≤ ivl <;> simp [hw, htpos, this]
 
+/-! ## Bucket locality -/
+
+/-- Two limiter states agree on bucket `k`. -/
+def Agree (k : Key) (s₁ s₂ : St) : Prop := s₁.req k = s₂.req k ∧ s₁.hit k = s₂.hit k
+
+/-- Frame: an event leaves every other bucket untouched. -/
+theorem frame (c : Cfg) (s : St) (now : Int) (a : Addr) (q : Nat) (k : Key)
+    (hk : subnetKey a c.v4len c.v6len ≠ k) :
+    Agree k (isRateLimited c s now a q).1 s := by
+  have hk' : ¬ (k = subnetKey a c.v4len c.v6len) := fun h => hk h.symm
+  unfold isRateLimited
+  split
+  · exact ⟨rfl, rfl⟩
+  split
+  · exact ⟨rfl, rfl⟩
+  split
+  · exact ⟨rfl, rfl⟩
+  simp only [hasHitRateLimit, incBackoff, Agree]
+  split
+  · split <;> simp [hk']
+  · simp [hk']
+
+/-- Determinacy: the verdict for an address and the new contents of its bucket depend only on the
+old contents of that bucket. -/
+theorem local_step (c : Cfg) (s₁ s₂ : St) (now : Int) (a : Addr) (q : Nat)
+    (h : Agree (subnetKey a c.v4len c.v6len) s₁ s₂) :
+    (isRateLimited c s₁ now a q).2 = (isRateLimited c s₂ now a q).2 ∧
+    Agree (subnetKey a c.v4len c.v6len) (isRateLimited c s₁ now a q).1 (isRateLimited c s₂ now a q).1 := by
+  obtain ⟨hr, hh⟩ := h
+  have hb : isBackoff c s₁ (subnetKey a c.v4len c.v6len) now =
+      isBackoff c s₂ (subnetKey a c.v4len c.v6len) now := by
+    simp [isBackoff, Tbl.get, hh]
+  have hc : ∀ n i, curCounter s₁ (subnetKey a c.v4len c.v6len) n i now =
+      curCounter s₂ (subnetKey a c.v4len c.v6len) n i now := by
+    intro n i; simp [curCounter, hr]
+  have he : curExpiry c s₁ (subnetKey a c.v4len c.v6len) now =
+      curExpiry c s₂ (subnetKey a c.v4len c.v6len) now := by
+    simp [curExpiry, hr]
+  unfold isRateLimited
+  split
+  · exact ⟨rfl, hr, hh⟩
+  split
+  · exact ⟨rfl, hr, hh⟩
+  rw [hb]
+  split
+  · exact ⟨rfl, hr, hh⟩
+  simp only [hasHitRateLimit, hc, he]
+  refine ⟨rfl, ?_⟩
+  split
+  · simp only [incBackoff, Tbl.get, hh, Agree]
+    split <;> simp
+  · simp [Agree, hh]
+
+/-! ## Ring buffer refinement -/
+
+/-- The last `n` pushes in chronological order (oldest first), padded in front with the zero value. -/
+def chron (n : Nat) (h : List Int) : List Int := ((h ++ List.replicate (n + 1) 0).take n).reverse
+
+theorem chron_length (n : Nat) (h : List Int) : (chron n h).length = n := by
+  simp [chron]; omega
+
+theorem chron_cons (n : Nat) (e : Int) (h : List Int) :
+    chron (n + 1) (e :: h) = (chron (n + 1) h).tail ++ [e] := by
+  unfold chron
+  rw [List.tail_reverse, List.dropLast_take (by simp; omega)]
+  simp
+
+theorem chron_head (n : Nat) (h : List Int) :
+    (chron (n + 1) h).head? = some ((h[n]?).getD 0) := by
+  unfold chron
+  rw [List.head?_reverse, List.getLast?_eq_getElem?]
+  have : ((h ++ List.replicate (n + 1 + 1) 0).take (n + 1)).length - 1 = n := by
+    simp; omega
+  rw [this, List.getElem?_take]
+  simp only [Nat.lt_add_one, if_true]
+  by_cases hn : n < h.length
+  · simp [List.getElem?_append_left hn, hn]
+  · have hn' : h.length ≤ n := by omega
+    rw [List.getElem?_append_right hn']
+    have h1 : h[n]? = none := by simp [hn']
+    have h2 : n - h.length < n + 1 + 1 := by omega
+    simp [h1, h2]
+
+/-- Ring invariant: the buffer splits at `cur` into `A ++ B`, and `B ++ A` is the last `n` pushes
+in chronological order. -/
+def RingInv (n : Nat) (r : Ring) (h : List Int) : Prop :=
+  ∃ A B : List Int, r.buf = A ++ B ∧ A.length = r.cur ∧ B ≠ [] ∧ B ++ A = chron n h ∧
+    r.buf.length = n
+
+theorem ringInv_new (n : Nat) : RingInv (n + 1) (Ring.new (n + 1)) [] := by
+  refine ⟨[], List.replicate (n + 1) 0, by simp [Ring.new], by simp [Ring.new], by simp, ?_, by simp [Ring.new]⟩
+  simp [chron]
+
+theorem ringInv_push (n : Nat) (r : Ring) (h : List Int) (e : Int) (hi : RingInv (n + 1) r h) :
+    RingInv (n + 1) (r.push e) (e :: h) := by
+  obtain ⟨A, B, hbuf, hA, hB, hBA, hlen⟩ := hi
+  cases B with
+  | nil => exact absurd rfl hB
+  | cons x B' =>
+    have hne : r.buf.length ≠ 0 := by omega
+    have hset : r.buf.set r.cur e = A ++ e :: B' := by
+      rw [hbuf, ← hA]; simp
+    have hrev : chron (n + 1) (e :: h) = B' ++ A ++ [e] := by
+      rw [chron_cons, ← hBA]; simp
+    have hAl : A.length + (B'.length + 1) = n + 1 := by
+      have := hlen; rw [hbuf] at this; simpa using this
+    unfold Ring.push
+    simp only [hne, if_false]
+    cases B' with
+    | nil =>
+      have hcur : (r.cur + 1) % r.buf.length = 0 := by
+        rw [hlen, ← hA]; simp at hAl; rw [hAl]; simp
+      refine ⟨[], A ++ [e], ?_, ?_, by simp, ?_, ?_⟩
+      · simp [hset]
+      · simp [hcur]
+      · simpa using hrev.symm
+      · simp [hlen]
+    | cons y B'' =>
+      have hcur : (r.cur + 1) % r.buf.length = r.cur + 1 := by
+        apply Nat.mod_eq_of_lt
+        rw [hlen, ← hA]; simp at hAl; omega
+      refine ⟨A ++ [e], y :: B'', ?_, ?_, by simp, ?_, ?_⟩
+      · simp [hset]
+      · simp [hcur, hA]
+      · rw [hrev]; simp
+      · simp [hlen]
+
+theorem ringInv_current (n : Nat) (r : Ring) (h : List Int) (hi : RingInv (n + 1) r h) :
+    r.current = (h[n]?).getD 0 := by
+  obtain ⟨A, B, hbuf, hA, hB, hBA, _⟩ := hi
+  have hh := chron_head n h
+  rw [← hBA] at hh
+  cases B with
+  | nil => exact absurd rfl hB
+  | cons x B' =>
+    simp at hh
+    simp [Ring.current, hbuf, ← hA, hh]
+
+/-- **ring_refines_history.** `RequestCounter.Add` on the real ring buffer of size `num + 1` computes
+exactly `above` on the full history, for every sequence of pushes. -/
+theorem ringAdd_eq_above (num : Nat) (ivl : Int) (r : Ring) (h : List Int) (ts : Int)
+    (hi : RingInv (num + 1) r h) :
+    (ringAdd r ivl ts).2 = above num ivl h ts ∧ RingInv (num + 1) (ringAdd r ivl ts).1 (ts :: h) := by
+  have hp := ringInv_push num r h ts hi
+  refine ⟨?_, hp⟩
+  have hc := ringInv_current num (r.push ts) (ts :: h) hp
+  simp only [ringAdd, hc, above]
+  cases hg : (ts :: h)[num]? with
+  | none => simp
+  | some t => simp
+
+/-! ## Refinement of the window-log specification (no cache expiry) -/
+
+/-- Simulation relation between the concrete caches and the specification, for one bucket. -/
+def SimK (c : Cfg) (s : St) (sp : Spec) (k : Key) : Prop :=
+  (match s.req k with
+    | none => (sp k).1 = []
+    | some en => en.expires = none ∧ en.val.hist = (sp k).1 ∧ en.val.num = famCountK c k ∧
+        en.val.ivl = famIvlK c k) ∧
+  (match s.hit k with
+    | none => (sp k).2 = 0
+    | some en => en.expires = none ∧ en.val = (sp k).2 ∧ 0 < en.val)
+
+def TimeInv (sp : Spec) (T : Int) : Prop :=
+  ∀ k, Desc (sp k).1 ∧ ∀ x ∈ (sp k).1, 0 < x ∧ x ≤ T
+
+theorem famCount_key (c : Cfg) (a : Addr) : famCount c a = famCountK c (subnetKey a c.v4len c.v6len) := by
+  unfold famCount famCountK subnetKey; rfl
+
+theorem famIvl_key (c : Cfg) (a : Addr) : famIvl c a = famIvlK c (subnetKey a c.v4len c.v6len) := by
+  unfold famIvl famIvlK subnetKey; rfl
+
+theorem desc_cons {a : Int} {l : List Int} (hd : Desc l) (h : ∀ x ∈ l, x ≤ a) : Desc (a :: l) := by
+  cases l with
+  | nil => trivial
+  | cons b r => exact ⟨h b (by simp), hd⟩
+
+theorem backoff_agrees (c : Cfg) (s : St) (sp : Spec) (k : Key) (now : Int) (hk : SimK c s sp k) :
+    isBackoff c s k now = decide (0 < (sp k).2 ∧ c.count ≤ (sp k).2) := by
+  obtain ⟨_, hhit⟩ := hk
+  unfold isBackoff Tbl.get
+  cases hh : s.hit k with
+  | none => simp [hh] at hhit; simp [hhit]
+  | some en =>
+    simp [hh] at hhit
+    obtain ⟨hex, hv, hpos'⟩ := hhit
+    simp [Entry.expired, hex, ← hv]
+    omega
+
+/-- The bucket's counter, found or fresh, is the specification's history. -/
+theorem curCounter_sim (c : Cfg) (s : St) (sp : Spec) (k : Key) (now : Int) (hk : SimK c s sp k) :
+    curCounter s k (famCountK c k) (famIvlK c k) now =
+      { num := famCountK c k, ivl := famIvlK c k, hist := (sp k).1 } := by
+  obtain ⟨hreq, _⟩ := hk
+  unfold curCounter
+  cases hr : s.req k with
+  | none => simp [hr] at hreq; simp [Counter.new, hreq]
+  | some en =>
+    simp [hr] at hreq
+    obtain ⟨hex, hh, hn, hi⟩ := hreq
+    simp [Entry.expired, hex]
+    cases hv : en.val
+    simp_all
+
+theorem curExpiry_sim (c : Cfg) (s : St) (sp : Spec) (k : Key) (now : Int) (hp : c.period ≤ 0)
+    (hk : SimK c s sp k) : curExpiry c s k now = none := by
+  obtain ⟨hreq, _⟩ := hk
+  have he : expiry now c.period = none := by simp [expiry]; omega
+  unfold curExpiry
+  cases hr : s.req k with
+  | none => simp [he]
+  | some en =>
+    simp [hr] at hreq
+    simp [Entry.expired, hreq.1]
+
+theorem sim_step (c : Cfg) (s : St) (sp : Spec) (e : Ev) (T : Int)
+    (hp : c.period ≤ 0) (hdur : c.duration ≤ 0) (h4 : 0 ≤ c.v4ivl) (h6 : 0 ≤ c.v6ivl)
+    (hs : ∀ k, SimK c s sp k) (ht : TimeInv sp T) (hpos : 0 < e.now) (hT : T ≤ e.now) :
+    (isRateLimited c s e.now e.addr e.qtype).2 = (specStep c sp e).2 ∧
+    (∀ k, SimK c (isRateLimited c s e.now e.addr e.qtype).1 (specStep c sp e).1 k) ∧
+    TimeInv (specStep c sp e).1 e.now := by
+  have hmono : TimeInv sp e.now := fun k =>
+    ⟨(ht k).1, fun x hx => ⟨((ht k).2 x hx).1, Int.le_trans ((ht k).2 x hx).2 hT⟩⟩
+  have hk := hs (evKey c e)
+  have hb := backoff_agrees c s sp (evKey c e) e.now hk
+  have hcc := curCounter_sim c s sp (evKey c e) e.now hk
+  have hce := curExpiry_sim c s sp (evKey c e) e.now hp hk
+  have hivl : 0 ≤ famIvlK c (evKey c e) := by unfold famIvlK; split <;> assumption
+  have hab : above (famCountK c (evKey c e)) (famIvlK c (evKey c e)) (sp (evKey c e)).1 e.now =
+      aboveSpec (famCountK c (evKey c e)) (famIvlK c (evKey c e)) (sp (evKey c e)).1 e.now := by
+    apply above_eq_spec _ _ _ _ hivl
+    · exact desc_cons (hmono _).1 (fun x hx => ((hmono _).2 x hx).2)
+    · exact fun x hx => ((hmono _).2 x hx).1
+    · exact hpos
+  have hed : expiry e.now c.duration = none := by simp [expiry]; omega
+  have hframe : ∀ k, subnetKey e.addr c.v4len c.v6len ≠ k →
+      (hasHitRateLimit c s (subnetKey e.addr c.v4len c.v6len)
+        (famCountK c (subnetKey e.addr c.v4len c.v6len)) (famIvlK c (subnetKey e.addr c.v4len c.v6len)) e.now).1.req k = s.req k ∧
+      (hasHitRateLimit c s (subnetKey e.addr c.v4len c.v6len)
+        (famCountK c (subnetKey e.addr c.v4len c.v6len)) (famIvlK c (subnetKey e.addr c.v4len c.v6len)) e.now).1.hit k = s.hit k := by
+    intro k hne
+    have hk' : ¬ (k = subnetKey e.addr c.v4len c.v6len) := fun h => hne h.symm
+    simp only [hasHitRateLimit, incBackoff]
+    split
+    · split <;> simp [hk']
+    · simp [hk']
+  unfold isRateLimited specStep
+  split
+  · exact ⟨rfl, hs, hmono⟩
+  split
+  · exact ⟨rfl, hs, hmono⟩
+  rw [famCount_key, famIvl_key]
+  simp only [evKey] at hk hb hcc hce hivl hab ⊢
+  rw [hb]
+  by_cases hcond : (0 < (sp (subnetKey e.addr c.v4len c.v6len)).2 ∧
+      c.count ≤ (sp (subnetKey e.addr c.v4len c.v6len)).2)
+  · simp only [hcond, and_self, decide_true, if_true]
+    exact ⟨trivial, hs, hmono⟩
+  simp only [hcond, decide_false, Bool.false_eq_true, if_false]
+  simp only [hasHitRateLimit, hcc, hce, Counter.add, hab]
+  refine ⟨?_, ?_, ?_⟩
+  · rfl
+  · intro k
+    by_cases hkk : k = subnetKey e.addr c.v4len c.v6len
+    · subst hkk
+      obtain ⟨hreq, hhit⟩ := hk
+      split
+      · -- above: hit counter incremented
+        rename_i hab1
+        unfold incBackoff SimK Tbl.get
+        cases hh : s.hit (subnetKey e.addr c.v4len c.v6len) with
+        | none => simp [hh] at hhit; simp [hab1, hed, hhit]
+        | some en =>
+          simp [hh] at hhit
+          simp [hab1, Entry.expired, hhit.1, hhit.2.1]
+      · rename_i hab0
+        simp [SimK, hab0]
+        exact hhit
+    · -- another bucket: untouched on both sides
+      have hk' := hs k
+      unfold SimK at hk' ⊢
+      by_cases hab1 : aboveSpec (famCountK c (subnetKey e.addr c.v4len c.v6len))
+          (famIvlK c (subnetKey e.addr c.v4len c.v6len)) (sp (subnetKey e.addr c.v4len c.v6len)).1 e.now = true
+      · simp only [hab1, if_true, incBackoff]
+        cases hg : Tbl.get s.hit (subnetKey e.addr c.v4len c.v6len) e.now <;>
+          simpa [hg, hkk] using hk'
+      · simpa [hab1, hkk] using hk'
+  · intro k
+    by_cases hkk : k = subnetKey e.addr c.v4len c.v6len
+    · subst hkk
+      simp only [if_true]
+      refine ⟨desc_cons (hmono _).1 (fun x hx => ((hmono _).2 x hx).2), ?_⟩
+      intro x hx
+      cases hx with
+      | head => exact ⟨hpos, Int.le_refl _⟩
+      | tail _ hx' => exact (hmono _).2 x hx'
+    · simp only [hkk, if_false]; exact hmono k
+
 end Agd.Ratelimit
